@@ -128,6 +128,11 @@ func ExecSched(sc sim.Script) *sim.Outcome {
 		plan.Strategy = "replay"
 	}
 	res := sched.Run(plan, est, 200000, fns...)
+	for _, t := range s.Tasks {
+		for _, op := range t {
+			w.stats.Inc("op.task-" + op.K)
+		}
+	}
 	w.stats.Add("sim.steps", int64(res.Steps))
 	w.stats.Add("sched.switches", int64(res.Switches))
 	w.stats.Add("sched.decisions", int64(res.Decisions))
